@@ -6,10 +6,10 @@ SOURCE = {}
 CONTRACTS = []
 
 
-def harness(name, params, src, requires=None, loops=None, lemmas=None):
+def harness(name, params, src, requires=None, loops=None, lemmas=None, ghost_params=None):
     SOURCE["harness." + name] = src.strip("\n") + "\n"
     CONTRACTS.append(dict(name="harness." + name, params=params, requires=requires or {}, ensures={}, raises={}, returns="none",
-                          loops=loops or {}, lemmas=lemmas or [], variant_of="harness"))
+                          loops=loops or {}, lemmas=lemmas or [], variant_of="harness", ghost_params=ghost_params or {}))
 
 
 # ---------------------------------------------------------------------------------------------------------------- C16
@@ -226,3 +226,80 @@ def c07_deletion_changes_check(s, p, n):
     assert a[0] != b[0], "first check symbol differs"
     assert a != b, "a single deletion of C, G or T always changes the check"
 ''', requires={"position": "p < len(s)", "nucleotide": "code(s[p]) >= 1", "check-length": "n >= 1"})
+
+
+# ---------------------------------------------------------------------------------------------------------------- C01 / C05 / C06 (normal mode)
+WFH = {
+    "graph": "k >= 1 and is_accessor(accessor, k)",
+    "start": "start_index < ipow(4, k) and R[start_index] != 0",
+    "ghost-shapes": "len(R) == ipow(4, k) and len(rank) == ipow(4, k)",
+    "reachable-closed": "forall(lambda v: implies(0 <= v and v < ipow(4, k) and R[v] != 0, deg(accessor, v) >= 1 and rank[v] >= 0 and "
+                        "forall(lambda j: implies(accessor[v][j] >= 0, R[accessor[v][j]] != 0 and (deg(accessor, v) > 1 or rank[accessor[v][j]] < rank[v])), 0, 4)), "
+                        "0, ipow(4, k), lambda v: here(v))",
+}
+
+
+def c01_normal(shuffled, with_check):
+    name = "c01_roundtrip_normal" + ("_table" if shuffled else "") + ("_vt" if with_check else "")
+    sh = "shuffles" if shuffled else "None"
+    enc = ("s, chk = encode(bits, accessor, start_index, False, n, %s)" if with_check else "s = encode(bits, accessor, start_index, False, 0, %s)") % sh
+    dec = "out = decode(s, len(bits), accessor, start_index, False, %s, %s)" % ("chk" if with_check else "None", sh)
+    bij = ("digit_bijection_table(row(accessor, encode_vtx[t]), row(shuffles, encode_vtx[t]), encode_gq[t] % deg(accessor, encode_vtx[t]))" if shuffled else
+           "digit_bijection(row(accessor, encode_vtx[t]), encode_gq[t] % deg(accessor, encode_vtx[t]))")
+    src = """
+def %s(bits, accessor, start_index, shuffles, k, R, rank, n):
+    %s
+    m = len(s)
+    p = 0
+    while p < m:
+        mark(code(s[p]))
+        p += 1
+    %s
+    q = 0
+    while q < m:
+        mark(code(s[q]))
+        q += 1
+    t = 0
+    while t < m:
+        mark(code(s[t]))
+        if deg(accessor, encode_vtx[t]) > 1:
+            %s
+        assert link(decode_dgp, decode_ddp, encode_gq, t), "digit-read-back"
+        t += 1
+    cut(forall(lambda i: link(decode_dgp, decode_ddp, encode_gq, i), 0, m, lambda i: decode_ddp[i]),
+        encode_gq[0] == val(bits, 0, len(bits), 2), encode_gq[m] == 0, m >= 0,
+        implies(lv(decode_dgp, decode_ddp, 0, m) < ipow(2, len(bits)), val(out, 0, len(bits), 2) == lv(decode_dgp, decode_ddp, 0, m)),
+        len(out) == len(bits), digits(out, 0, len(out), 1))
+    g = m
+    while g > 0:
+        g -= 1
+    hv_lv_dual(A(decode_dgp), A(decode_ddp), 0, m)
+    pv_bound(A(bits), D(bits), P(bits, 0), P(bits, len(bits)), 2)
+    pv_inj(A(out), D(out), P(out, 0), A(bits), D(bits), P(bits, 0), len(bits), 2)
+    assert out == bits, "decode(encode(message)) == message"
+""" % (name, enc, dec, bij)
+    req = dict(WFH)
+    if shuffled:
+        req["table"] = "is_table(shuffles, k)"
+    if with_check:
+        req["check-length"] = "n >= 1"
+    harness(name, {"bits": "nd_bits", "accessor": "mat(ipow(4, k), 4)", "start_index": "nat",
+                   "shuffles": "mat(ipow(4, k), 4)" if shuffled else "none", "R": "nd_bits", "rank": "list_int", "n": "nat"},
+            src, requires=req, ghost_params={"k": "nat"},
+            loops={
+                1: dict(invariant={"range": "0 <= p <= m",      # the strand is a walk: decode cannot raise
+                                   "walk": "walkv(accessor, s, start_index, p) == encode_vtx[p] and encode_vtx[p] >= 0",
+                                   "dna": "is_dna(s, 0, p)"}, variant="m - p"),
+                2: dict(invariant={"range": "0 <= q <= m",      # decode visits the same vertices as encode
+                                   "same-vertices": "forall(lambda i: decode_vtxd[i] == encode_vtx[i], 0, q + 1)"}, variant="m - q"),
+                3: dict(invariant={"range": "0 <= t <= m",      # the digit read back at each position is the one encode wrote (C18 bijection)
+                                   "digits-read-back": "forall(lambda i: link(decode_dgp, decode_ddp, encode_gq, i), 0, t, lambda i: decode_ddp[i])"},
+                        variant="m - t"),
+                4: dict(invariant={"range": "0 <= g <= m",      # hence the right-Horner value of the digits is the quotient chain of encode
+                                   "horner": "hv(decode_dgp, decode_ddp, g, m) == encode_gq[g]"}, variant="g"),
+            })
+
+
+for _sh in (False, True):
+    for _vt in (False, True):
+        c01_normal(_sh, _vt)
